@@ -1,5 +1,6 @@
 import Originium.Model.DiskProgMain
 import Originium.Model.Wal
+import Originium.Model.LevelTie
 /-! # C14 — losing unsynced file tails in a crash loses no acknowledged commit
 
 `CutOf d d'`: every wal keeps at least its synced records and loses any suffix of the rest (at the
@@ -113,6 +114,21 @@ theorem C14_program_obeys_rules_after_loss {s : Prog.PSt} (h : Prog.Reach s) {d'
     ∃ t', accept { s.t with d := d' } e = some t' :=
   Prog.never_rejected (Prog.Reach.step h (Prog.Step.crash hc)) he
 
+/-- the code of `levelManager.writeTable` (translated from /repo on every run): the table's name appears only through a rename
+    that follows a complete write, an fsync and a close of the temporary file; when any step fails nothing is renamed
+    and the caller gets an error. This is the `publish` step of the trace rules (`C14_publish_after_sync`) in the code. -/
+theorem C14_code_publish_by_rename (cf wf sf clf rf : Bool) :
+    let r := GenLevel.writeTable cf wf sf clf rf []
+    ("rename tmp -> name" ∈ r.2 →
+        r.2 = ["create tmp", "write tmp", "fsync tmp", "close tmp", "rename tmp -> name"]) ∧
+      (r.1 = true → r.2 = ["create tmp", "write tmp", "fsync tmp", "close tmp", "rename tmp -> name"]) := by
+  refine ⟨fun h => (LevelTie.writeTable_rename_after_sync cf wf sf clf rf h).1, ?_⟩
+  cases cf <;> cases wf <;> cases sf <;> cases clf <;> cases rf <;> decide
+
+/-- non-vacuity: the success path exists -/
+example : GenLevel.writeTable false false false false false [] =
+    (true, ["create tmp", "write tmp", "fsync tmp", "close tmp", "rename tmp -> name"]) := by decide
+
 #print axioms C14_lossy_crash
 #print axioms C14_ack_after_sync
 #print axioms C14_program_lossy
@@ -120,4 +136,5 @@ theorem C14_program_obeys_rules_after_loss {s : Prog.PSt} (h : Prog.Reach s) {d'
 #print axioms C14_publish_after_sync
 #print axioms C14_remove_after_replacement
 #print axioms C14_torn_wal_is_prefix
+#print axioms C14_code_publish_by_rename
 end Props
